@@ -809,7 +809,7 @@ package genql
 
 //@ func (*Join).JoinMatchFunc
 //@   loop 0 invariant nothing-emitted-before-a-partner-is-found[C04]: !b ==> len(slice) == 0
-//@   at-call append@loop2 assert a-pair-is-emitted-only-when-on-holds[C04]: rsValue
+//@   at-call append@loop2 assert a-pair-is-emitted-only-when-on-holds[C04]: rsValue && called(Expr) && callresult(Expr, 0) == any(true)
 //@   at-call append@loop3 assert an-unmatched-row-is-kept-only-when-nothing-was-paired[C04]: len(target) == rangeindex + 1 && has(appended.(Map), j.rightIdent) && appended.(Map)[j.rightIdent] == nil
 //@   loop 3 invariant only-the-unmatched-rows[C04]: len(slice) == rangeindex + 1
 //@   ensures inner-without-partner[C04]: err == nil && !result0 ==> len(result1) == 0
@@ -932,3 +932,8 @@ package genql
 // so that values that compare equal (7 and uint32(7), 9 and "9") fall into one bucket
 //@ func ToCatalog
 //@   at-call Sprintf:reader assert the-key-is-printed-the-way-compare-prints-values[C04]: arg0 == "%v"
+
+// C08/C01: a row or an inner result enters the result of exec only inside the row loop, one element at a time
+// (after the filter, or after the recursive run): nothing is copied over wholesale
+//@ func (*Query).exec
+//@   at-call append:slice, assert the-result-is-built-in-the-row-loop[C01,C08]: rangeindex >= -1
